@@ -132,12 +132,20 @@ typedef struct { int r, c, w; word *d; } bm_t;
 static bm_t bm_new(int r, int c) { bm_t b = { r, c, (c + 63) / 64, NULL }; b.d = (word *)calloc((size_t)(r ? r : 1) * (size_t)(b.w ? b.w : 1), 8); return b; }
 static void bm_free(bm_t *b) { free(b->d); b->d = NULL; }
 
+uint64_t gen_world_seed; /* 0: "fresh" world (junk = zeros / identity); else junk content is drawn from it */
 void gen_fill(mzd_t *M, const char *gen, long p, uint64_t seed) {
   if (!M || M->nrows == 0 || M->ncols == 0) return;
   rng_t r = rng_make(seed ^ 0x6d6174ULL);
   rci_t m = M->nrows, n = M->ncols;
   mat_clear(M);
   if (!strcmp(gen, "zero")) return;
+  if (!strcmp(gen, "junk")) { /* prior content of a destination the operation overwrites: differs from world to world */
+    if (!gen_world_seed) return;
+    rng_t w = rng_make(gen_world_seed ^ seed ^ 0x6a756e6bULL);
+    for (rci_t i = 0; i < m; i++)
+      for (wi_t j = 0; j < M->width; j++) mat_set_word(M, i, j, rng_u64(&w));
+    return;
+  }
   if (!strcmp(gen, "rand")) {
     for (rci_t i = 0; i < m; i++)
       for (wi_t j = 0; j < M->width; j++) mat_set_word(M, i, j, rand_word_density(&r, p));
@@ -229,7 +237,10 @@ void gen_perm(mzp_t *P, const char *gen, uint64_t seed, rci_t bound) {
   (void)bound;
   for (rci_t i = 0; i < P->length; i++) {
     if (!strcmp(gen, "id")) P->values[i] = i;
-    else if (!strcmp(gen, "junk")) P->values[i] = (rci_t)rng_u64(&r); /* arbitrary prior content (output-only operand) */
+    else if (!strcmp(gen, "junk")) { /* arbitrary prior content of an output-only operand; world dependent */
+      if (!gen_world_seed) P->values[i] = i;
+      else { if (i == 0) r = rng_make(seed ^ gen_world_seed ^ 0x6a70ULL); P->values[i] = (rci_t)rng_u64(&r); }
+    }
     else P->values[i] = i + (rci_t)rng_below(&r, (uint64_t)(P->length - i)); /* LAPACK style: i <= P[i] < length */
   }
 }
